@@ -23,13 +23,23 @@ META = {
 def obligations(tier, seed):
     t = 400 if tier == 'quick' else 1800
     obs = []
-    # parent kind and statement kinds come from 12 boolean structure parameters (17 x 10^n index space)
-    ns = (0, 1, 2) if tier == 'quick' else (0, 1, 2, 3)
-    sh = [['which == %d' % w, 'n == %d' % n] + (['b11 == False', 'b10 == False', 'b9 == False', 'b8 == False'] if n < 2 else []) for w in range(4) for n in ns]
-    if tier == 'thorough':
-        sh = [x for x in sh if 'n == 3' not in x] + [['which == %d' % w, 'n == 3', 'b11 == %s' % a] for w in range(4) for a in (True, False)]
+    # every structure parameter of the suite kernel comes from 19 booleans: b0-b1 transform, b2-b3 list length n,
+    # b4.. parent kind x statement kinds (17 x 10^n)
+    def bit(i, v):
+        return 'b%d == %s' % (i, bool(v))
+    sh = []
+    for w in range(4):
+        for n in ((0, 1, 2) if tier == 'quick' else (0, 1, 2, 3)):
+            fixed = [bit(0, w & 1), bit(1, w & 2), bit(2, n & 1), bit(3, n & 2)]
+            if n <= 1:
+                sh.append(fixed + [bit(i, 0) for i in range(12, 19)])      # 17 x 10 < 2^8
+            elif n == 2:
+                sh.append(fixed + [bit(i, 0) for i in range(15, 19)])      # 17 x 100 < 2^11
+            else:
+                sh += [fixed + [bit(18, a), bit(17, b)] for a in (0, 1) for b in (0, 1)]   # 17 x 1000 < 2^15
     obs.append(dict(name='C05a.suite_hooks', fn='suite_kernel_b', timeout=t, shards=sh,
-                    bounds='4 transforms x %d parents x every statement list of length <= %d over %d statement kinds' % (transkern.N_PARENT, max(ns), transkern.N_STMT)))
+                    bounds='4 transforms x %d parents x every statement list of length <= %d over %d statement kinds' % (
+                        transkern.N_PARENT, 2 if tier == 'quick' else 3, transkern.N_STMT)))
     obs.append(dict(name='C05a.remove_debug', fn='debug_kernel', timeout=t, shards=[['shape == %d' % s, 'else_kind == %d' % e] for s in range(5) for e in range(3)],
                     bounds='see META'))
     obs.append(dict(name='C05a.remove_object', fn='object_kernel', timeout=t, shards=[['shape == %d' % s] for s in range(5)], bounds='see META'))
